@@ -1,5 +1,5 @@
 """C20 (querier side): monitor spec/TraceBrowse.tla over spec/Heard.tla; see DESIGN.md section 7."""
-from . import daemon
+from . import cachemech, core, daemon
 
 PROP = "C20"
 PREFIXES = ['C20.']
@@ -12,8 +12,14 @@ MCS = [('MCHeard', 'MCHeard{T}.cfg')]
 def run(tier, seed, t0):
     mcs = [(m, c.replace("{T}", "T" if tier == "thorough" else "")) for (m, c) in MCS]
     return daemon.run_group(PROP, tier, seed, t0, FAMILIES, "TraceBrowse", "TraceBrowse.cfg", PREFIXES, mcs,
-                            ['C20.metrics', 'C20.empty'], ASSUME, RULE, n_quick=80, n_thorough=2000)
+                            ['C20.metrics', 'C20.empty', 'C20.cache-notforus', 'C20.cache-forget'], ASSUME + cachemech.ASSUME, RULE + cachemech.RULE,
+                            n_quick=80, n_thorough=2000,
+                            pre=lambda v, t, s: cachemech.step(PROP, PREFIXES, ["MCCacheSub.cfg"], v, t, s))
 
 
 def replay(path, seed):
+    import json
+    case = json.load(open(path))["case"]
+    if case.get("args", {}).get("family") in ("cachecases", "cacherand"):
+        return cachemech.replay(PROP, PREFIXES, case, core.Verdict(PROP))
     return daemon.replay_group(path, "TraceBrowse", "TraceBrowse.cfg", PREFIXES, PROP)
